@@ -29,6 +29,19 @@ func main() {
 		case "bounds":
 			boundsMain(os.Args[2:])
 			return
+		case "case": // development aid: print the input of a case id of the current seed/tier
+			e := lib.Init("C01", "exploration")
+			d := &driver{e: e, self: os.Args[0]}
+			self, _ := os.Executable()
+			d.self = self
+			bases := d.phase0(d.collectBases())
+			for _, c := range buildCases(e, bases) {
+				if c.ID == os.Args[2] {
+					os.Stdout.Write(materialise(bases, c))
+				}
+			}
+			os.RemoveAll(e.Scratch)
+			return
 		case "one": // development / replay aid: run the four entry points on one file and print what came back
 			oneMain(os.Args[2:])
 			return
@@ -78,6 +91,7 @@ func (d *driver) run() {
 	d.sum.Outcomes = map[string]int{}
 	d.sum.ErrFrom = map[string]int{}
 	d.sum.Fam = map[string][]int{}
+	d.sum.FamCPUms = map[string]float64{}
 
 	t0 := time.Now()
 	phase := func(name string) {
@@ -156,6 +170,10 @@ func (d *driver) run() {
 	e.Extra("families_cases_rejected_accepted", d.sum.Fam)
 	sort.Strings(d.sum.WholeRej)
 	e.Extra("unmodified_texts_not_accepted", d.sum.WholeRej)
+	for k, v := range d.sum.FamCPUms {
+		d.sum.FamCPUms[k] = float64(int(v))
+	}
+	e.Extra("cpu_ms_by_family", d.sum.FamCPUms)
 	e.Extra("worker_deaths", d.deaths)
 	e.Extra("run_after_accept", d.runStats)
 	e.Extra("run_crashes_not_judged_by_site", d.others)
@@ -400,7 +418,8 @@ func (d *driver) runJob(idx int, j job) (accepted []string) {
 			break
 		}
 		_ = os.Remove(logp)
-		r := lib.RunProc(lib.ProcSpec{Argv: []string{d.self, "worker", jp, outp, logp, strconv.Itoa(start)}, Dir: dir, Timeout: 45 * time.Minute})
+		r := lib.RunProc(lib.ProcSpec{Argv: []string{d.self, "worker", jp, outp, logp, strconv.Itoa(start)}, Dir: dir, Timeout: 45 * time.Minute,
+			Env: []string{"GOMAXPROCS=2", "GOGC=400"}}) // one case at a time per worker: no use for 16 GC threads each
 		done, open, _ := readLog(logp)
 		if done {
 			break
@@ -476,7 +495,7 @@ func (d *driver) runJob(idx int, j job) (accepted []string) {
 			case "steps":
 				d.fail(failure{key: "steps@" + f.Site, what: entryTitle(f.Entry) + " does not terminate within the step bound (" + f.Msg + "); the loop that does not advance is in " + f.Site, ext: ext, text: in, id: c.ID})
 			case "badresult":
-				d.fail(failure{key: "result@" + f.Entry + ":" + f.Kind, what: entryTitle(f.Entry) + ": " + f.Msg, ext: ext, text: in, id: c.ID})
+				d.fail(failure{key: "result@" + f.Kind, what: entryTitle(f.Entry) + ": " + f.Msg, ext: ext, text: in, id: c.ID})
 			}
 		}
 		if cr.Accepted && c.Run {
@@ -549,6 +568,9 @@ func (d *driver) mergeSummary(s wsummary) {
 		d.sum.MaxLin, d.sum.MaxLinID = s.MaxLin, s.MaxLinID
 	}
 	d.sum.WholeRej = append(d.sum.WholeRej, s.WholeRej...)
+	for k, v := range s.FamCPUms {
+		d.sum.FamCPUms[k] += v
+	}
 	if s.MaxCPUms > d.sum.MaxCPUms {
 		d.sum.MaxCPUms, d.sum.MaxCPUID = s.MaxCPUms, s.MaxCPUID
 	}
@@ -580,6 +602,7 @@ func (d *driver) runAccepted(bs []base, c cspec) {
 	defer os.Remove(p)
 	r := lib.RunProc(lib.ProcSpec{
 		Argv:    []string{"/bin/sh", "-c", `ulimit -t 2; ulimit -v 8388608; exec "$0" "$1"`, e.Origami(), p},
+		Env:     []string{"GOMAXPROCS=2"},
 		Dir:     dir,
 		Timeout: 120 * time.Second,
 		MaxOut:  1 << 20,
@@ -598,7 +621,7 @@ func (d *driver) runAccepted(bs []base, c cspec) {
 	}
 	if crash, _ := lib.GoCrash(r); crash {
 		se := r.Stderr
-		site := lib.PanicSite(se)
+		site := crashSite(se)
 		nilDeref := strings.Contains(se, "nil pointer dereference") || strings.Contains(se, "interface conversion: interface is nil") ||
 			strings.Contains(se, "is nil, not")
 		if strings.Contains(se, "goroutine stack exceeds") {
@@ -624,4 +647,25 @@ func (d *driver) runAccepted(bs []base, c cspec) {
 	default:
 		d.count("exit_other")
 	}
+}
+
+// crashSite names the innermost repository frame of the panicking code in a Go trace. When the
+// trace was printed by a recover() handler (try/finally turns a recovered internal panic into
+// a fatal diagnostic with the stack), the frames above the last panic( frame belong to the
+// handler: the search starts below it.
+func crashSite(trace string) string {
+	lines := strings.Split(trace, "\n")
+	last := -1
+	for i, l := range lines {
+		t := strings.TrimSpace(l)
+		if strings.HasPrefix(t, "panic(") || strings.HasPrefix(t, "runtime.sigpanic(") {
+			last = i
+		}
+	}
+	if last >= 0 {
+		if s := lib.PanicSite(strings.Join(lines[last+1:], "\n")); s != "unknown" {
+			return s
+		}
+	}
+	return lib.PanicSite(trace)
 }
